@@ -77,7 +77,8 @@ def cases(tier, seed):
     # outstanding one): the unit's status and its requested counts are unaffected, under either policy
     for policy in ("zero", "drop"):
         for setup, n in (("np1", 24), ("ga1", 16)):
-            for est, blank in ((["turnout"], ["gop"]), (["turnout"], ["gop", "dem"]), (["turnout", "dem"], ["gop"]), (["dem"], ["turnout"])):
+            # ... and a half-delivered row: one of two requested counts is in, the other still missing
+            for est, blank in ((["turnout"], ["gop"]), (["turnout"], ["gop", "dem"]), (["turnout", "dem"], ["gop"]), (["turnout", "dem"], ["dem"]), (["dem", "turnout"], ["turnout"])):
                 for loc in ("pop0", "newcounty"):
                     out.append(dict(seed=seed, bg=dict(n=n, layout="AA2", partial=1), probes=[["reporting", loc], ["nonrep_partial", "pop1"]], blank=blank, cfg=_cfg(setup, "all", policy, est, [], [0.5, 0.9])))
     if tier == "thorough":
@@ -184,6 +185,9 @@ def evaluate(case):
                         viol("not-whole", f"{tname} {key} {col}={v}")
                     elif v < counted:
                         viol("below-floor-group", f"{tname} {key} {col}={v} < counted {counted}")
+                    elif g is not None and e in g.get("results", {}) and v < g["results"][e]:
+                        # the floor is what the feed says has been counted in the group, not what the table repeats
+                        viol("below-feed-floor-group", f"{tname} {key} {col}={v} < {g['results'][e]} votes counted in the feed for the units of this group (the table's own results column says {counted})")
                     elif g is not None and not g["predict"] and float(v) != float(counted):
                         viol("zero-width", f"{tname} {key} has no outstanding unit but {col}={v} != counted {counted}")
                     elif g is not None and g["predict"] and float(v) == float(counted) and any(R.result_value(cats[u]["eff"], e) > 0 for u in g["predict"]):
